@@ -113,3 +113,23 @@ Lemma id_spoof_run :
   p_phase (zifinal [(7, spoof3); (3, honest3)]%nat [(2, honest2)]%nat) = Finished /\
   p_phase (zifinal [(7, spoof3)]%nat [(2, honest2); (3, honest3)]%nat) = Finished.
 Proof. vm_compute. repeat split. Qed.
+
+(* Two groups (Z mod 101).  Group B = the group above (members 1,2,3, threshold 2).  In group A the
+   verifier has no sign key for member 3.  A verify message forged in member 3's name about a block of
+   group A makes A's lookup fail (and the node send a key request).  With the node's lookup, keyed by
+   (group, member), B's round is untouched and finalises on the shares of 2 and 3.  With a lookup that
+   also consults the miner-keyed "request pending" state, member 3's key reads as missing in B as well:
+   his valid share is ignored and B cannot finalise. *)
+Definition renvA : @env Z nat := Env 0%nat 1%nat [(1, 20); (2, 30)] 2 false 9.
+Definition forged3 : @msg Z nat := Msg 3 0%nat (PVal 1) (PVal 1).
+Definition ztwo (evs : list (gtag * @msg Z nat)) :=
+  two_run (zq rq) Z.eqb (zveq rq) (Z.eqb 0) (zvz rq) Nat.eqb (zH rhs) zsel true renvA renv evs.
+Definition zpend (evs : list (gtag * @msg Z nat)) :=
+  pend_run (zq rq) Z.eqb (zveq rq) (Z.eqb 0) (zvz rq) Nat.eqb (zH rhs) zsel true renvA renv evs.
+
+Lemma cross_group_run :
+  p_phase (snd (ztwo [(GA, forged3); (GB, honest2); (GB, honest3)])) = Finished /\
+  p_phase (snd (fst (zpend [(GB, honest2); (GB, honest3)]))) = Finished /\
+  p_phase (snd (fst (zpend [(GA, forged3); (GB, honest2); (GB, honest3)]))) = Collecting /\
+  length (g_map (st_g (p_st (snd (fst (zpend [(GA, forged3); (GB, honest2); (GB, honest3)])))))) = 1%nat.
+Proof. vm_compute. repeat split. Qed.
